@@ -316,6 +316,7 @@ func (w *WAL) mutateStateLocked(tx stateTxn) error {
 	}
 
 	w.s.Store(&newS)
+	verifYield("mutateState:between-publish-and-finalizer")
 	s.finalizer.Store(fn)
 	return nil
 }
@@ -326,6 +327,7 @@ func (w *WAL) mutateStateLocked(tx stateTxn) error {
 // truncated concurrently.
 func (w *WAL) acquireState() (*state, func()) {
 	s := w.loadState()
+	verifYield("acquireState:between-load-and-acquire")
 	return s, s.acquire()
 }
 
@@ -350,6 +352,7 @@ func (w *WAL) FirstIndex() (uint64, error) {
 	if err := w.checkClosed(); err != nil {
 		return 0, err
 	}
+	verifYield("FirstIndex:after-closed-check")
 	s, release := w.acquireState()
 	defer release()
 	return s.firstIndex(), nil
@@ -360,6 +363,7 @@ func (w *WAL) LastIndex() (uint64, error) {
 	if err := w.checkClosed(); err != nil {
 		return 0, err
 	}
+	verifYield("LastIndex:after-closed-check")
 	s, release := w.acquireState()
 	defer release()
 	return s.lastIndex(), nil
@@ -370,6 +374,7 @@ func (w *WAL) GetLog(index uint64, log *raft.Log) error {
 	if err := w.checkClosed(); err != nil {
 		return err
 	}
+	verifYield("GetLog:after-closed-check")
 	s, release := w.acquireState()
 	defer release()
 	w.metrics.IncrementCounter("log_entries_read", 1)
@@ -399,6 +404,7 @@ func (w *WAL) StoreLogs(logs []*raft.Log) error {
 		return nil
 	}
 
+	verifYield("StoreLogs:before-lock")
 	w.writeMu.Lock()
 	defer w.writeMu.Unlock()
 
@@ -493,6 +499,7 @@ func (w *WAL) awaitRotationLocked() {
 		// We managed to race for writeMu with the background rotate operation which
 		// needs to complete first. Wait for it to complete.
 		w.writeMu.Unlock()
+		verifYield("awaitRotation:before-receive")
 		<-awaitCh
 		w.writeMu.Lock()
 	}
@@ -510,6 +517,7 @@ func (w *WAL) DeleteRange(min uint64, max uint64) error {
 		return nil
 	}
 
+	verifYield("DeleteRange:before-lock")
 	w.writeMu.Lock()
 	defer w.writeMu.Unlock()
 
@@ -574,6 +582,7 @@ func (w *WAL) Set(key []byte, val []byte) error {
 	if err := w.checkClosed(); err != nil {
 		return err
 	}
+	verifYield("Set:after-closed-check")
 	w.metrics.IncrementCounter("stable_sets", 1)
 	return w.metaDB.SetStable(key, val)
 }
@@ -583,6 +592,7 @@ func (w *WAL) Get(key []byte) ([]byte, error) {
 	if err := w.checkClosed(); err != nil {
 		return nil, err
 	}
+	verifYield("Get:after-closed-check")
 	w.metrics.IncrementCounter("stable_gets", 1)
 	return w.metaDB.GetStable(key)
 }
@@ -627,6 +637,7 @@ func (w *WAL) runRotate() {
 	for {
 		indexStart := <-w.triggerRotate
 
+		verifYield("runRotate:before-lock")
 		w.writeMu.Lock()
 
 		// Either triggerRotate was closed by Close, or Close raced with a real
@@ -960,6 +971,7 @@ func (w *WAL) Close() error {
 	}
 
 	// Wait for writes
+	verifYield("Close:before-lock")
 	w.writeMu.Lock()
 	defer w.writeMu.Unlock()
 
@@ -975,6 +987,7 @@ func (w *WAL) Close() error {
 	defer s.release()
 
 	w.s.Store(&state{})
+	verifYield("Close:after-state-swap")
 
 	// Old state might be still in use by readers, attach closers to all open
 	// segment files.
